@@ -465,6 +465,20 @@ func c05Stress(s *C05Script, c *core.Ctx) {
 			}
 			acc.Bytes()
 			acc.Packets()
+			// any call order: reset, look, offer a packet that is refused, look, start again
+			acc.Reset()
+			acc.Bytes()
+			acc.Packets()
+			if len(pk) > 1 {
+				p := packet.Packet(pk[1])
+				acc.WritePacket(&p)
+				acc.Bytes()
+			}
+			acc.Reset()
+			p0 := packet.Packet(pk[0])
+			acc.WritePacket(&p0)
+			acc.Bytes()
+			acc.Packets()
 		}) {
 			return
 		}
